@@ -214,7 +214,44 @@ def gen_subulp_profile(rng, names):
     return {"candidates": list(names), "ballots": [{"r": r, "w": fs(Fraction(w))} for r, w in bs]}
 
 
-def gen_rule_case(rng, rules=ALL_RULES, *, max_c=6, tiebreaks=TIEBREAKS, tie_bias=0.0, pairwise_ties=False, subulp=0.02):
+def gen_orbit_profile(rng, names):
+    """Two disjoint pairs (A,B), (C,D); every ballot comes with its images under the swaps A<->B and C<->D at the same weight, so
+    A,B are level on EVERY score and so are C,D; one base ballot is led by A and one by C at the same weight, which levels all
+    four on first-place votes while (short ballots, different tails) their Borda scores differ between the pairs: a scored
+    tiebreak separates the tie into two groups that each stay tied."""
+    n = len(names)
+    A, B, C, D = rng.sample(names, 4)
+    rest = [c for c in names if c not in (A, B, C, D)]
+
+    def orbit(r):
+        sw1 = {A: B, B: A}
+        sw2 = {C: D, D: C}
+        out = []
+        for f in (lambda x: x, lambda x: sw1.get(x, x), lambda x: sw2.get(x, x), lambda x: sw2.get(sw1.get(x, x), sw1.get(x, x))):
+            out.append([f(x) for x in r])
+        return out
+
+    w = rng.randint(1, 4)
+    bases = []
+    for lead in (A, C):
+        others = [c for c in names if c != lead]
+        bases.append(([lead] + rng.sample(others, rng.randint(0, n - 1)), w))
+    for _ in range(rng.randint(0, 2)):
+        pool = rest if rest and rng.random() < 0.7 else names
+        lead = rng.choice(pool)
+        others = [c for c in names if c != lead]
+        bases.append(([lead] + rng.sample(others, rng.randint(0, n - 1)), rng.randint(1, 3)))
+    bs = []
+    for r, wt in bases:
+        for img in orbit(r):
+            bs.append(([[c] for c in img], wt))
+    rng.shuffle(bs)
+    cands = list(names)
+    rng.shuffle(cands)
+    return {"candidates": cands, "ballots": [{"r": r, "w": fs(Fraction(wt))} for r, wt in bs]}
+
+
+def gen_rule_case(rng, rules=ALL_RULES, *, max_c=6, tiebreaks=TIEBREAKS, tie_bias=0.0, pairwise_ties=False, subulp=0.02, orbit=0.025):
     """-> case dict {rule, kw, profile, shape}.  Only configurations the rule documents."""
     rule = rng.choice(list(rules))
     cfg = {}
@@ -283,6 +320,11 @@ def gen_rule_case(rng, rules=ALL_RULES, *, max_c=6, tiebreaks=TIEBREAKS, tie_bia
         if set(tiebreaks) & {"borda", "first_place"}:
             cfg["tiebreak"] = rng.choice(sorted(set(tiebreaks) & {"borda", "first_place"}))
         shape = dict(shape, law="subulp", wfam="hugemix", nb=len(jp["ballots"]), ghosts=0, zero_w=0, eps=False)
+    if orbit and n >= 4 and "tiebreak" in cfg and rule != "PluralityVeto" and transfer != "random" and rng.random() < orbit:
+        jp = gen_orbit_profile(rng, jp["candidates"])
+        if set(tiebreaks) & {"borda", "first_place"}:
+            cfg["tiebreak"] = rng.choice(sorted(set(tiebreaks) & {"borda", "first_place"}))
+        shape = dict(shape, law="orbit", wfam="small", nb=len(jp["ballots"]), ghosts=0, zero_w=0, eps=False)
     return {"rule": rule, "kw": cfg, "profile": jp, "shape": shape}
 
 
